@@ -1005,7 +1005,7 @@ def mini_exec(fn: ast.FunctionDef, args: Dict[str, object], budget: int = 2000, 
                 raise _Raised(str(ex))
         if isinstance(e, ast.Call) and isinstance(e.func, ast.Name) and e.func.id in env and callable(env[e.func.id]) and not isinstance(env[e.func.id], (SampleObj, ClassTok)):
             # a function defined inside the interpreted function (or a lambda bound to a name)
-            return env[e.func.id](*[ev(x) for x in e.args])
+            return env[e.func.id](*[ev(x) for x in e.args], **{k.arg: ev(k.value) for k in e.keywords if k.arg})
         if isinstance(e, ast.BinOp) and isinstance(e.op, (ast.Mult, ast.FloorDiv, ast.Div, ast.Pow, ast.BitOr, ast.BitAnd)):
             l_, r_ = ev(e.left), ev(e.right)
             if any(isinstance(v_, (SampleObj, ClassTok)) or callable(v_) for v_ in (l_, r_)):
@@ -1366,6 +1366,15 @@ def mini_exec(fn: ast.FunctionDef, args: Dict[str, object], budget: int = 2000, 
     def bind(t, v):
         if isinstance(t, ast.Name):
             env[t.id] = v
+        elif isinstance(t, (ast.Tuple, ast.List)) and isinstance(v, (list, tuple)) and sum(isinstance(x, ast.Starred) for x in t.elts) == 1 \
+                and len(v) >= len(t.elts) - 1:
+            k_ = next(i for i, x in enumerate(t.elts) if isinstance(x, ast.Starred))
+            tail_ = len(t.elts) - k_ - 1
+            for x, y in zip(t.elts[:k_], v[:k_]):
+                bind(x, y)
+            bind(t.elts[k_].value, list(v[k_:len(v) - tail_]))
+            for x, y in zip(t.elts[k_ + 1:], v[len(v) - tail_:] if tail_ else []):
+                bind(x, y)
         elif isinstance(t, (ast.Tuple, ast.List)) and isinstance(v, (list, tuple)) and len(v) == len(t.elts):
             for x, y in zip(t.elts, v):
                 bind(x, y)
@@ -1418,14 +1427,15 @@ def mini_exec(fn: ast.FunctionDef, args: Dict[str, object], budget: int = 2000, 
                 else:
                     base[st.target.attr] = cur + ev(st.value)
             elif isinstance(st, ast.FunctionDef) and not st.decorator_list:
-                def local_fn(*vals, _g=st):
+                def local_fn(*vals, _g=st, **kws):
                     ps_ = [a.arg for a in _g.args.args]
-                    if len(vals) > len(ps_):
-                        raise _PathEval.Unknown("local function called with too many arguments")
+                    if len(vals) > len(ps_) or any(k_ not in ps_ for k_ in kws):
+                        raise _PathEval.Unknown("local function called with arguments it does not take")
                     call_env = dict(env)
                     call_env.update(zip(ps_, vals))
+                    call_env.update(kws)
                     for p_, d_ in zip(ps_[len(ps_) - len(_g.args.defaults):], _g.args.defaults):
-                        if ps_.index(p_) >= len(vals):
+                        if ps_.index(p_) >= len(vals) and p_ not in kws:
                             call_env[p_] = ev(d_)
                     return mini_exec(_g, call_env, budget, methods, _depth + 1, functions, ctors, classes, consts)
                 env[st.name] = local_fn
